@@ -103,7 +103,7 @@ func EncryptMessageWithTempKeys(msg []byte, nonceSecond, nonceServer *big.Int) [
 	// добавляем остаток рандомных байт в сообщение, что бы суммарно оно делилось на 16
 	totalLen := len(hash) + len(msg)
 	overflowedLen := totalLen % 16
-	needToAdd := 16 - overflowedLen
+	needToAdd := (16 - overflowedLen) % 16
 
 	msg = bytes.Join([][]byte{hash, msg, dry.RandomBytes(needToAdd)}, []byte{})
 	return encryptMessageWithTempKeys(msg, nonceSecond, nonceServer)
